@@ -568,6 +568,44 @@ class Pipeline:
         _update_all_results(func, r, output_name, all_results, self.lazy)
         return all_results[output_name]
 
+    def _validate_run_kwargs(
+        self,
+        output_name: OUTPUT_TYPE,
+        flat_scope_kwargs: dict[str, Any],
+        kwargs: dict[str, Any],
+    ) -> None:
+        """Raise for missing or unused keyword arguments *before* any function is executed.
+
+        Walks the functions that `_run` would execute (same argument resolution order as
+        `_get_func_args`) without calling them.
+        """
+        key = (output_name, frozenset(flat_scope_kwargs))
+        if key in self._internal_cache.validated_kwargs:
+            return
+        used: set[str] = set()
+        visited: set[PipeFunc] = set()
+
+        def visit(name: OUTPUT_TYPE) -> None:
+            func = self.output_to_func[name]
+            if func in visited:
+                return
+            visited.add(func)
+            for arg in func.parameters:
+                if arg in func._bound or arg in flat_scope_kwargs:
+                    used.add(arg)
+                elif arg in self.output_to_func:
+                    visit(arg)
+                elif arg not in self.defaults:
+                    msg = f"Missing value for argument `{arg}` in `{func}`."
+                    raise ValueError(msg)
+
+        visit(output_name)
+        if unused := flat_scope_kwargs.keys() - used:
+            unused_str = ", ".join(sorted(unused))
+            msg = f"Unused keyword arguments: `{unused_str}`. {kwargs=}, used_parameters={used}"
+            raise UnusedParametersError(msg)
+        self._internal_cache.validated_kwargs.add(key)
+
     def run(
         self,
         output_name: OUTPUT_TYPE,
@@ -606,6 +644,7 @@ class Pipeline:
             raise ValueError(msg)
 
         flat_scope_kwargs = self._flatten_scopes(kwargs)
+        self._validate_run_kwargs(output_name, flat_scope_kwargs, kwargs)
 
         all_results: dict[OUTPUT_TYPE, Any] = flat_scope_kwargs.copy()  # type: ignore[assignment]
         used_parameters: set[str | None] = set()
@@ -2131,3 +2170,4 @@ class _PipelineInternalCache:
     root_args: dict[OUTPUT_TYPE, tuple[str, ...]] = field(default_factory=dict)
     func: dict[OUTPUT_TYPE, _PipelineAsFunc] = field(default_factory=dict)
     func_defaults: dict[OUTPUT_TYPE, dict[str, Any]] = field(default_factory=dict)
+    validated_kwargs: set[tuple[OUTPUT_TYPE, frozenset[str]]] = field(default_factory=set)
